@@ -55,7 +55,7 @@ def gen_uses(rng, has_total, tv, tot_unit):
         remaining -= share
         k = rng.random()
         if k < 0.15:
-            uses.append(rng.choice(["remaining", "rest of the", "left over"]))
+            uses.append(rng.choice(["remaining", "rest of the", "left over", "leftover", "Leftover", "left\tover", "remainder of the", "REST of"]))
         elif k < 0.55 and has_total and tv != 0:
             u = tot_unit
             if tot_unit is not None and tot_unit.lower() in UNIT_SYSTEM and rng.random() < 0.4:
@@ -419,6 +419,9 @@ EXPECTED = [
     (["100g spam\nfried spam = fry(spam)\nmeal = boil(fried spam)\nserve(60g of meal)\nfreeze(60g of meal)"], ["sub_recipe_used_too_much"]),
     # (with a titled link - 'fried spam := ...' - the linter does not look through the title and reports an unknown total for two partial uses,
     #  while the compiler does look through it when it decides whether one use takes the whole: undocumented either way, not claimed)
+    # every documented spelling of the remainder
+    (["1 kg x\nf(1/2 of x)\ng(leftover x)"], []), (["1 kg x\nf(1/2 of x)\ng(Leftover x, salt)"], []), (["1 kg x\nf(1/2 of x)\ng(left over x)"], []),
+    (["1 kg x\nf(1 kg x)\ng(leftover x)"], ["sub_recipe_reference_non_positive_remainder"]), (["1 kg x\nf(remainder of the x)\ng(rest x)"], ["sub_recipe_reference_non_positive_remainder"]),
     # several outputs of one statement, each with its own verdict, in either order
     (["veg, stock = boil(2 carrots)\nsoup(200ml of stock)\nserve(1/2 of veg)"], ["sub_recipe_quantity_unknown", "sub_recipe_not_used_up"]),
     (["veg, stock = boil(2 carrots)\nserve(1/2 of veg)\nsoup(200ml of stock)"], ["sub_recipe_quantity_unknown", "sub_recipe_not_used_up"]),
